@@ -12,6 +12,7 @@ from __future__ import annotations
 
 import itertools
 import threading
+import time
 
 from lib import e5ref, gen, stuck, vtime, wire
 
@@ -20,7 +21,7 @@ LEVEL = "exploration"
 RULE = ("random histories (<= 14 events, thorough <= 40) for host and equipment roles, passive and active link, with "
         "on_commack_requested returning 0 or 1 (events: link up/down, S1F13/S1F14 with COMMACK 0/1/other, matching / stale / foreign "
         "system bytes, other messages, T3 and delay expiry - the oldest armed timer first, as real time would -, disable/enable); distinct by (role, commack policy, event sequence); non-trivial when at "
-        "least one S1F13/S1F14 was exchanged")
+        "least one S1F13/S1F14 was exchanged; the handler's own waitfor_communicating() sampled with every state sample")
 ASSUMPTIONS = ["what the handler answers to S1F13 received while waiting for the delay is not constrained by the statement",
                "an S1F14 with COMMACK=0 completes an attempt if its system bytes belong to any S1F13 sent on the current link "
                "(matching or stale); a foreign one does not", "'retried for as long as the link stays up' is restated as bounded "
@@ -33,7 +34,7 @@ LEVEL_NOTE = "Histories sampled; unbounded retry restated as bounded progress pe
 TECHNIQUE = "runtime trace monitors (E30 establish-communications obligations) over generated histories with virtual timers"
 SHARDS = {"quick": 8, "thorough": 16}
 TIMEOUT = {"quick": 400, "thorough": 3400}
-FLOORS = {"oracle.M1_samples": 300, "oracle.M2_failed_attempts": 40, "oracle.M3_link_loss_or_disable": 60, "oracle.M4_callbacks": 40,
+FLOORS = {"oracle.waitfor_communicating_samples": 300, "oracle.M1_samples": 300, "oracle.M2_failed_attempts": 40, "oracle.M3_link_loss_or_disable": 60, "oracle.M4_callbacks": 40,
           "coverage.state_event_pairs": 30, "histories.host": 20, "histories.equipment": 20}
 
 
@@ -118,12 +119,33 @@ class Run:
     # ---- monitors evaluated at quiescent points
     def check_M1(self):
         self.ctx.count("oracle.M1_samples")
+        if not self.bad:
+            self.check_waitfor()
         if self.rig.comm_state == "COMMUNICATING" and not self.model_established():
             self.rig.wait(lambda: self.rig.comm_state != "COMMUNICATING", 0.5)
             if self.rig.comm_state == "COMMUNICATING" and not self.model_established():
                 self.violation("M1:COMMUNICATING-without-completed-COMMACK0-exchange-on-current-link",
                                link_generation=self.link_gen(), established_on_generation=self.established_gen)
                 self.established_gen = self.link_gen()   # resynchronise
+
+    def check_waitfor(self):
+        """The handler's own query agrees with its state: waitfor_communicating() tells the application whether communication is
+        established *now* (after a link loss or disable() it is not, however often it was before)."""
+        handler = self.rig.owner
+        self.ctx.count("oracle.waitfor_communicating_samples")
+        for attempt in range(2):
+            before = self.rig.comm_state
+            try:
+                answer = handler.waitfor_communicating(0.02)
+            except Exception as exc:
+                self.violation(f"waitfor_communicating-raises:{type(exc).__name__}", error=repr(exc)[:200])
+                return
+            after = self.rig.comm_state
+            if before != after or answer == (after == "COMMUNICATING"):
+                return                      # agrees, or the state moved while asking
+            if attempt == 0:
+                time.sleep(0.3)             # ask again: only a stable disagreement counts
+        self.violation("M3:waitfor_communicating-disagrees-with-the-communication-state", answer=answer, state=after)
 
     def sent_s1f13_systems(self, gen):
         return [f.system for g, f in self.out_frames(gen) if (f.stream, f.function) == (1, 13)]
